@@ -681,6 +681,70 @@ func (c *Ctx) m4Reducer(fn *ssa.Function) {
 		}
 	})
 	cls := countedLoops(fn)
+	// delegation: every chunk result is received once, into the slot of the same index of a local list as long as
+	// chChunks, and the list is handed (with the same c and destination) to the reducer for directly addressed results
+	if len(reads) == 1 {
+		if del := callsTo(fn, "/bandersnatch", "", "msmReduceChunkPointAffineDMA"); len(del) == 1 && fn.Name() != "msmReduceChunkPointAffineDMA" && len(del[0].Call.Args) == 3 {
+			okDel := true
+			var whyD []string
+			cl := loopOf(cls, reads[0].Block())
+			if cl == nil || core.StripConv(reads[0].Index) != core.StripConv(cl.phi) {
+				okDel = false
+				whyD = append(whyD, "the chunk results are not received in a loop over their index")
+			} else {
+				vs := valuesSym(cl, arr)
+				if !vs {
+					okDel = false
+					whyD = append(whyD, "the receiving loop does not run over 0 .. len(chChunks)-1")
+				}
+			}
+			// the received value goes to totals[j]
+			var list ssa.Value
+			for _, r := range core.Refs(reads[0]) {
+				ld, isLd := r.(*ssa.UnOp)
+				if !isLd || ld.Op != token.MUL {
+					continue
+				}
+				for _, rr := range core.Refs(ld) {
+					rc, isRc := rr.(*ssa.UnOp)
+					if !isRc || rc.Op != token.ARROW {
+						continue
+					}
+					for _, u := range core.Refs(rc) {
+						if st, isSt := u.(*ssa.Store); isSt && st.Val == ssa.Value(rc) {
+							if dst, isIA := st.Addr.(*ssa.IndexAddr); isIA && core.StripConv(dst.Index) == core.StripConv(reads[0].Index) {
+								list = dst.X
+							}
+						}
+					}
+				}
+			}
+			if list == nil {
+				okDel = false
+				whyD = append(whyD, "a received chunk result is not stored at its own index of the list")
+			} else {
+				mk, isMk := list.(*ssa.MakeSlice)
+				ln, isLen := ssa.Value(nil), false
+				if isMk {
+					ln, isLen = core.IsLenOf(mk.Len)
+				}
+				if !isMk || !isLen || ln != ssa.Value(arr) {
+					okDel = false
+					whyD = append(whyD, "the list is not make(..., len(chChunks))")
+				}
+				if del[0].Call.Args[2] != list || del[0].Call.Args[1] != ssa.Value(cw) || del[0].Call.Args[0] != ssa.Value(paramNamed(fn, "p")) {
+					okDel = false
+					whyD = append(whyD, "the list, c and the destination are not what is handed to msmReduceChunkPointAffineDMA")
+				}
+				if cl != nil && !core.PostDominatesEntry(fn, del[0]) {
+					okDel = false
+					whyD = append(whyD, "the delegation is conditional")
+				}
+			}
+			c.Check(okDel, "M4", key, fn.Pos(), strings.Join(whyD, "; "), "every chChunks[j] received once into list[j]; the list reduced by msmReduceChunkPointAffineDMA with the same c")
+			return
+		}
+	}
 	ok := len(reads) == 2
 	var why []string
 	if ok {
@@ -1676,37 +1740,102 @@ func RuleM8(c *Ctx) {
 	}
 	// nbChunks = 256/c (+1 if 256%c != 0)
 	nb := core.StripConv(selLen)
-	if u, ok := nb.(*ssa.UnOp); ok && u.Op == token.MUL {
-		if cell, ok := u.X.(*ssa.Alloc); ok {
-			okDef := false
-			var quo ssa.Value
-			for _, st := range storesInto(cell) {
-				switch v := core.StripConv(st.Val).(type) {
-				case *ssa.BinOp:
-					if v.Op == token.QUO {
-						if k, isK := core.ConstInt(v.X); isK && k == 256 && isParamC(v.Y) {
-							quo = v
-						}
+	{
+		// walk back from the sizing value through copies (cells, phis, conversions, results handed out of a spliced
+		// helper): somewhere it is 256/c, and somewhere that plus one
+		okDef := false
+		var quo ssa.Value
+		seen := map[ssa.Value]bool{}
+		var back func(v ssa.Value, d int)
+		back = func(v ssa.Value, d int) {
+			v = core.StripConv(v)
+			if v == nil || seen[v] || d > 12 {
+				return
+			}
+			seen[v] = true
+			switch x := v.(type) {
+			case *ssa.UnOp:
+				if x.Op == token.MUL {
+					var cell *ssa.Alloc
+					switch a := x.X.(type) {
+					case *ssa.Alloc:
+						cell = a
+					case *ssa.FreeVar:
+						cell, _ = core.FreeVarBinding(a).(*ssa.Alloc)
 					}
-					if v.Op == token.ADD {
-						if k, isK := core.ConstInt(v.Y); isK && k == 1 {
-							okDef = true
+					if cell != nil {
+						for _, st := range storesInto(cell) {
+							back(st.Val, d+1)
 						}
 					}
 				}
-			}
-			remTest := false
-			for _, cd := range core.Conds(fn) {
-				if r, isR := core.StripConv(cd.X).(*ssa.BinOp); isR && r.Op == token.REM {
-					if k, isK := core.ConstInt(r.X); isK && k == 256 && isParamC(r.Y) {
-						if z, isZ := core.ConstInt(cd.Y); isZ && z == 0 {
-							remTest = true
-						}
+			case *ssa.Phi:
+				for _, e := range x.Edges {
+					back(e, d+1)
+				}
+			case *ssa.BinOp:
+				if x.Op == token.QUO {
+					if k, isK := core.ConstInt(x.X); isK && k == 256 && isParamCThrough(x.Y) {
+						quo = x
+					}
+				}
+				if x.Op == token.ADD {
+					if k, isK := core.ConstInt(x.Y); isK && k == 1 {
+						okDef = true
+						back(x.X, d+1)
 					}
 				}
 			}
-			c.Check(quo != nil && okDef && remTest, "M8", "partitionScalars:nbChunks=ceil(256/c)", cell.Pos(), "nbChunks is not 256/c, incremented when 256 % c != 0", "nbChunks = 256/c (+1 if 256%c != 0)")
 		}
+		back(nb, 0)
+		remTest := false
+		for _, cd := range core.Conds(fn) {
+			if r, isR := core.StripConv(cd.X).(*ssa.BinOp); isR && r.Op == token.REM {
+				if k, isK := core.ConstInt(r.X); isK && k == 256 && isParamCThrough(r.Y) {
+					if z, isZ := core.ConstInt(cd.Y); isZ && z == 0 {
+						remTest = true
+					}
+				}
+			}
+			// the same remainder written out: 256 - c*(256/c) compared with zero
+			if sb, isS := core.StripConv(cd.X).(*ssa.BinOp); isS && sb.Op == token.SUB && quo != nil {
+				if k, isK := core.ConstInt(sb.X); isK && k == 256 {
+					if ml, isM := core.StripConv(sb.Y).(*ssa.BinOp); isM && ml.Op == token.MUL {
+						a, b := core.StripConv(ml.X), core.StripConv(ml.Y)
+						isQ := func(v ssa.Value) bool {
+							if v == ssa.Value(quo) {
+								return true
+							}
+							// nbChunks itself before the increment (a phi-free copy of the quotient)
+							if q2, ok := v.(*ssa.BinOp); ok && q2.Op == token.QUO && core.SameExpr(q2, quo) {
+								return true
+							}
+							// a load of the cell the quotient was stored into, before anything else is stored there
+							if ld, ok := v.(*ssa.UnOp); ok && ld.Op == token.MUL {
+								if cell, isCell := ld.X.(*ssa.Alloc); isCell {
+									hasQ := false
+									for _, st := range storesInto(cell) {
+										if core.StripConv(st.Val) == ssa.Value(quo) {
+											hasQ = true
+										} else if core.CanReach(fn, st, ld) {
+											return false
+										}
+									}
+									return hasQ
+								}
+							}
+							return false
+						}
+						if (isParamCThrough(a) && isQ(b)) || (isParamCThrough(b) && isQ(a)) {
+							if z, isZ := core.ConstInt(cd.Y); isZ && z == 0 {
+								remTest = true
+							}
+						}
+					}
+				}
+			}
+		}
+		c.Check(quo != nil && okDef && remTest, "M8", "partitionScalars:nbChunks=ceil(256/c)", fn.Pos(), "nbChunks is not 256/c, incremented when 256 % c != 0", "nbChunks = 256/c (+1 if 256%c != 0)")
 	}
 	// the digit loop inside the worker literal
 	found := 0
@@ -2374,6 +2503,12 @@ func RuleM11(c *Ctx) {
 			}
 			z, isZ := core.ConstInt(cl.init)
 			x, isLen := core.IsLenOf(cl.bound)
+			// a private copy made with the scalars' length has that length
+			if ms, isMS := x.(*ssa.MakeSlice); isLen && isMS {
+				if y, isLen2 := core.IsLenOf(ms.Len); isLen2 {
+					x = y
+				}
+			}
 			whole := isZ && z == 0 && cl.step == 1 && cl.op == token.LSS && isLen && paramBehind(x) != nil && paramBehind(x).Name() == "scalars" && f == fn
 			if !whole {
 				c.Und("M11", key, call.Pos(), "the loop around the table lookup does not run i = 0 .. len(scalars)-1 in MSM itself (its range is "+core.PathOf(cl.init)+" .. "+core.PathOf(cl.bound)+"): that every coefficient takes part cannot be shown")
@@ -2384,7 +2519,35 @@ func RuleM11(c *Ctx) {
 			cut := core.NewCuts()
 			cut.AddInstr(call)
 			for _, zc := range callsTo(f, "bandersnatch/fr", "Element", "IsZero") {
-				if ia, isIA := zc.Call.Args[0].(*ssa.IndexAddr); isIA && core.StripConv(ia.Index) == cl.phi && paramBehind(ia.X) != nil && paramBehind(ia.X).Name() == "scalars" {
+				ia, isIA := zc.Call.Args[0].(*ssa.IndexAddr)
+				if !isIA || core.StripConv(ia.Index) != cl.phi {
+					continue
+				}
+				isScalars := paramBehind(ia.X) != nil && paramBehind(ia.X).Name() == "scalars"
+				// … or of a private copy: make([]T, len(scalars)) filled by copy(x, scalars) and written by nothing else
+				if ms, isMS := ia.X.(*ssa.MakeSlice); isMS && !isScalars {
+					if y, isLen := core.IsLenOf(ms.Len); isLen && paramBehind(y) != nil && paramBehind(y).Name() == "scalars" {
+						copied, other := false, false
+						for _, r := range core.Refs(ms) {
+							switch u := r.(type) {
+							case *ssa.Call:
+								if b, isB := u.Call.Value.(*ssa.Builtin); isB && b.Name() == "copy" && u.Call.Args[0] == ssa.Value(ms) && paramBehind(u.Call.Args[1]) != nil && paramBehind(u.Call.Args[1]).Name() == "scalars" && core.Precedes(f, u, zc) {
+									copied = true
+								} else if !isB || b.Name() != "len" {
+									other = true
+								}
+							case *ssa.IndexAddr:
+								for _, rr := range core.Refs(u) {
+									if st, isSt := rr.(*ssa.Store); isSt && st.Addr == ssa.Value(u) {
+										other = true
+									}
+								}
+							}
+						}
+						isScalars = copied && !other
+					}
+				}
+				if isScalars {
 					cut = mergeCuts(cut, boolEdges(f, zc, true))
 				}
 			}
@@ -2431,4 +2594,61 @@ func linNLeaf(v ssa.Value, leaf func(ssa.Value) (linN, bool), d int) linN {
 		}
 	}
 	return linN{}
+}
+
+// isParamCThrough: the window parameter c, possibly through plain copies (a rebinding c := c of a spliced helper).
+func isParamCThrough(v ssa.Value) bool {
+	for d := 0; d < 4; d++ {
+		v = core.StripConv(v)
+		if isParamC(v) {
+			return true
+		}
+		u, ok := v.(*ssa.UnOp)
+		if !ok || u.Op != token.MUL {
+			return false
+		}
+		var cell *ssa.Alloc
+		switch a := u.X.(type) {
+		case *ssa.Alloc:
+			cell = a
+		case *ssa.FreeVar:
+			cell, _ = core.FreeVarBinding(a).(*ssa.Alloc)
+		}
+		if cell == nil {
+			return false
+		}
+		if p := core.ParamSpill(cell); p != nil {
+			return p.Name() == "c"
+		}
+		sts := storesInto(cell)
+		if len(sts) != 1 {
+			return false
+		}
+		v = sts[0].Val
+	}
+	return false
+}
+
+// valuesSym: the counted loop runs its variable over exactly 0 .. len(arr)-1 (upwards or downwards, unit step).
+func valuesSym(cl *countedLoop, arr ssa.Value) bool {
+	isLenArr := func(v ssa.Value) bool {
+		l, isLen := core.IsLenOf(core.StripConv(v))
+		return isLen && l == arr
+	}
+	zero := func(v ssa.Value) bool { k, ok := core.ConstInt(v); return ok && k == 0 }
+	lenMinus1 := func(v ssa.Value) bool {
+		b, ok := core.StripConv(v).(*ssa.BinOp)
+		if !ok || b.Op != token.SUB {
+			return false
+		}
+		k, isK := core.ConstInt(b.Y)
+		return isK && k == 1 && isLenArr(b.X)
+	}
+	switch {
+	case cl.step == 1 && cl.op == token.LSS && zero(cl.init) && isLenArr(cl.bound):
+		return true
+	case cl.step == -1 && cl.op == token.GEQ && lenMinus1(cl.init) && zero(cl.bound):
+		return true
+	}
+	return false
 }
